@@ -146,8 +146,16 @@ func NewBalDriver(mode string) *BalDriver {
 			}
 		}
 		add(balOp{kind: "lock", from: "A", to: "Lnext", amt: bigS("3"), until: 1, signer: "from"})
+		// the public transfer reaches any 20-byte address: the one the next lock will use, and a live lock account
+		add(balOp{kind: "transfer", from: "A", to: "Lnext", amt: bigS("3"), signer: "from"},
+			balOp{kind: "transfer", from: "A", to: "L1", amt: bigS("3"), signer: "from"},
+			balOp{kind: "transfer", from: "L1", to: "A", amt: bigS("3"), signer: "to"},
+			balOp{kind: "transferX", from: "A", to: "A", amt: bigS("5"), signer: "C"},
+			balOp{kind: "transferX", from: "A", to: "B", amt: bigS("0"), signer: "C"})
 		add(balOp{kind: "tick", signer: "C", de: 1}, balOp{kind: "tick", signer: "S", de: 1},
-			balOp{kind: "balEpoch", signer: "S"}, balOp{kind: "balEpoch", signer: "C"})
+			balOp{kind: "balEpoch", signer: "S"}, balOp{kind: "balEpoch", signer: "C"},
+			// a direct, Alphabet-signed call that runs ahead of Netmap's counter
+			balOp{kind: "balEpochAhead", signer: "C"})
 	case "C02":
 		for _, to := range []string{"A", "B"} {
 			add(balOp{kind: "mint", to: to, amt: bigS("5"), signer: "C"})
@@ -221,6 +229,12 @@ func NewBalDriver(mode string) *BalDriver {
 			balOp{kind: "tick", signer: "S", de: 1},
 			balOp{kind: "balEpoch", signer: "C"}, balOp{kind: "balEpoch", signer: "S"},
 			balOp{kind: "balEpochPast", signer: "C"},
+			// funds arriving on a live lock account, a second owner locking, a lock account spent by its parent or a stranger
+			balOp{kind: "transfer", from: "A", to: "L1", amt: bigS("1"), signer: "from"},
+			balOp{kind: "transfer", from: "A", to: "Lnext", amt: bigS("1"), signer: "from"},
+			balOp{kind: "lock", from: "B", to: "Lnext", amt: bigS("1"), until: 1, signer: "C"},
+			balOp{kind: "transfer", from: "L1", to: "A", amt: bigS("1"), signer: "to"},
+			balOp{kind: "transfer", from: "L1", to: "A", amt: bigS("1"), signer: "S"},
 		)
 	default:
 		hpanic("BalDriver: unknown mode %s", mode)
@@ -278,6 +292,8 @@ func (d *BalDriver) OpName(n *Node, i int) string {
 		return fmt.Sprintf("balance.newEpoch(%d) by %s", m.epoch, o.signer)
 	case "balEpochPast":
 		return fmt.Sprintf("balance.newEpoch(%d) by %s", m.epoch-1, o.signer)
+	case "balEpochAhead":
+		return fmt.Sprintf("balance.newEpoch(%d) by %s", m.epoch+2, o.signer)
 	case "lock":
 		return fmt.Sprintf("lock(%s->%s,%s,until=%d) by %s", f, t, o.amt, d.untilOf(m, o), o.signer)
 	case "burn":
@@ -341,6 +357,7 @@ func (d *BalDriver) Step(x *Exec, n *Node, i int) StepResult {
 		}
 	}
 	alpha := false
+	prefunded := false
 	switch o.signer {
 	case "C":
 		signers = append(signers, w.Alpha)
@@ -462,6 +479,7 @@ func (d *BalDriver) Step(x *Exec, n *Node, i int) StepResult {
 		}
 	case "lock":
 		until := d.untilOf(m, o)
+		prefunded = m.get(Hx(to)).Sign() != 0
 		scr = Script(balH, "lock", []byte("t"), from, to, amt, until)
 		if !alpha || m.get(Hx(from)).Cmp(amt) < 0 {
 			expHalt = false
@@ -480,10 +498,13 @@ func (d *BalDriver) Step(x *Exec, n *Node, i int) StepResult {
 			nm.epoch = e
 			release(e)
 		}
-	case "balEpoch", "balEpochPast":
+	case "balEpoch", "balEpochPast", "balEpochAhead":
 		e := m.epoch
 		if o.kind == "balEpochPast" {
 			e--
+		}
+		if o.kind == "balEpochAhead" {
+			e += 2
 		}
 		scr = Script(balH, "newEpoch", e)
 		if !alpha {
@@ -497,6 +518,9 @@ func (d *BalDriver) Step(x *Exec, n *Node, i int) StepResult {
 	where := map[string]any{"op": o.kind, "signer": o.signer}
 	if amt != nil {
 		where["amount_sign"] = amt.Sign()
+	}
+	if prefunded {
+		where["lock_target_prefunded"] = true
 	}
 	viol := func(class, msg string) StepResult {
 		return StepResult{V: Viol(class, msg, where), Outcome: "violation"}
@@ -655,7 +679,7 @@ func (d *BalDriver) Step(x *Exec, n *Node, i int) StepResult {
 				return viol("lock-not-released", fmt.Sprintf("lock account %s (until=%d) still exists after %s", d.symOf(k), m.locks[k].until, d.OpName(n, i)))
 			}
 		}
-		if o.kind == "tick" || o.kind == "balEpoch" || o.kind == "balEpochPast" {
+		if o.kind == "tick" || o.kind == "balEpoch" || o.kind == "balEpochPast" || o.kind == "balEpochAhead" {
 			for k, l := range m.locks {
 				if _, still := after[k]; !still && !contains(expRelease, k) {
 					where["until"] = l.until
